@@ -232,12 +232,12 @@ Print Assumptions C05_hopcroft_partition.
    positions in get_sets(), representative = any member `rep` picks, rows filtered through back_map,
    empty_language when only the trap's class remains, allow_partial from the row lengths): it never
    fails (no KeyError of back_map[...] / transitions[...], no fuel), and its result is isomorphic to
-   the specification model's - same alphabet, same language as the source, same number of states as
+   the specification model's - a valid record, same alphabet, same language as the source, same number of states as
    the specification model's minimal automaton, minimal among the automata of its own kind *)
 Theorem C05_coded_minify : forall m sched sord rep, valid_dfa m = true ->
   (forall a, In a sord <-> In a (d_syms m)) -> (forall l, l <> [] -> In (rep l) l) ->
   exists R P R0, cminify_full m sched sord rep = Ok (R, P) /\ minify m = Ok R0 /\
-    d_syms R = d_syms m /\ L_dfa R =L L_dfa m /\ size R = size R0 /\
+    valid_dfa R = true /\ d_syms R = d_syms m /\ L_dfa R =L L_dfa m /\ size R = size R0 /\
     (complete R -> minimal_complete R) /\ (~ complete R -> minimal_partial R).
 Proof. exact cminify_full_ok. Qed.
 Print Assumptions C05_coded_minify.
@@ -245,19 +245,10 @@ Print Assumptions C05_coded_minify.
 Theorem C05_coded_to_partial_min : forall m sched sord rep, valid_dfa m = true ->
   (forall a, In a sord <-> In a (d_syms m)) -> (forall l, l <> [] -> In (rep l) l) ->
   exists R P R0, cto_partial_min_full m sched sord rep = Ok (R, P) /\ to_partial_min m = Ok R0 /\
-    d_syms R = d_syms m /\ L_dfa R =L L_dfa m /\ size R = size R0 /\
+    valid_dfa R = true /\ d_syms R = d_syms m /\ L_dfa R =L L_dfa m /\ size R = size R0 /\
     (complete R -> minimal_complete R) /\ (~ complete R -> minimal_partial R).
 Proof. exact cto_partial_min_full_ok. Qed.
 Print Assumptions C05_coded_to_partial_min.
-
-(* not proved for the coded construction (it is for the specification model: C05_minify_valid): that
-   the record it returns passes valid_dfa (duplicate-free keys, rows complete when allow_partial is
-   false, ...).  The harness checks it on every generated case (prop 5 op 4 on the implementation's
-   result and comparison with the coded model's result). *)
-Definition C05_coded_minify_valid_statement : Prop :=
-  forall m sched sord rep R P, valid_dfa m = true ->
-  (forall a, In a sord <-> In a (d_syms m)) -> (forall l, l <> [] -> In (rep l) l) ->
-  cminify_full m sched sord rep = Ok (R, P) -> valid_dfa R = true.
 
 (* ---- non-vacuity ---- *)
 (* the section-8 reproducer: a kept state has an explicit edge into a dropped (dead) state *)
